@@ -19,6 +19,8 @@ func runC06(c *Ctx) {
 	eff := newEffects(w)
 	checkActionsAtomic(c, eff)
 	checkCrashLeftovers(c)
+	// reopening after a crash: the stale-lock report must not block the open (shared with C19)
+	checkNoSendBeforeHandover(c, "R19.9")
 	// the cache file follows every change of the excerpts (shared with C11)
 	c.Doc("R11.1", "per SubCache function: excerpts store ⇒ index write; delete ⇒ Index.Remove; reset ⇒ Index.Clear; and SubCache.write() on every path to a non-error exit")
 	checkExcerptIndexPairing(c)
@@ -308,6 +310,42 @@ func checkActionsAtomic(c *Ctx, eff *effSummaries) {
 			}
 		} else {
 			bad, p, _ = pathAvoiding(fn, fetch.Instr, isSuccessReturn, isMerge)
+		}
+		// what is merged is what was fetched: the same remote
+		{
+			strArgs := func(ci ssa.CallInstruction) []ssa.Value {
+				var out []ssa.Value
+				for _, a := range ci.Common().Args {
+					if isStringType(a.Type()) {
+						out = append(out, a)
+					}
+				}
+				return out
+			}
+			fa := strArgs(fetch.Instr)
+			same := true
+			what := ""
+			nm := 0
+			for _, cl := range Calls(fn) {
+				if !isMerge(cl.Instr) {
+					continue
+				}
+				for _, ma := range strArgs(cl.Instr) {
+					nm++
+					ok := false
+					for _, x := range fa {
+						if x == ma || sameExpr(x, ma, 0) {
+							ok = true
+						}
+					}
+					if !ok {
+						same, what = false, cl.Name+" at "+w.InstrPos(cl.Instr)
+					}
+				}
+			}
+			if len(fa) > 0 && nm > 0 {
+				c.Check(same, "R6.5", funcName(fn)+":merges-the-remote-fetched", w.FnPos(fn), "fetch and merge are given the same remote", "the remote handed to "+what+" is not the one that was fetched: the pull downloads from one remote and merges the tracking refs of another — the command succeeds while the fetched entities never arrive")
+			}
 		}
 		c.Check(!bad, "R6.5", funcName(fn)+":always-merges", w.FnPos(fn), "every success return after the fetch passes MergeAll", "a success return is reachable after the fetch without merging what was fetched ("+blocksString(w, p)+"): a pull interrupted (or refused) after its fetch is not completed by pulling again — the command reports success while the fetched entities stay unmerged")
 	}
